@@ -26,7 +26,7 @@ EXPLANATION = (
     'computed over all 256 bytes), so invalid bytes stay visible to the validators.')
 EXPLANATION += ' C14.R3 also checks that Delete allocates one member less only behind the key-present edge. C14.R7: the regular expressions of the configured validators, parsed into a normal form over exhaustive byte sets, denote exactly the W3C key / value grammar, and the validator returns true exactly when one of them matches the whole string. The shared rule C09.R7 (no mutable function-local static) is evaluated.'
 EXPLANATION += " C14.R2's gates are decided by pinning: with every call of the validator pinned to false no construction / insertion is reachable, and after a false result every path to the exit passes the reset / default return (named booleans, conjunctions, De Morgan forms and conditional expressions are folded by the path explorer)."
-ROUND2_EXPLANATION = (" C14.R2 also: with the tokenizer's validity flag and both validators pinned to valid, no path leaves an iteration of FromHeader's member loop without AddEntry. C14.R3: captured flags that the copy callback itself modifies are not pinned.")
+ROUND2_EXPLANATION = (" C14.R2 also: with the tokenizer's validity flag and both validators pinned to valid, no path leaves an iteration of FromHeader's member loop without AddEntry. C14.R3: captured flags that the copy callback itself modifies are not pinned. C14.R8: Set inserts the new pair before it copies the existing members; Get is true exactly for a valid key the lookup found (4 rows); ToHeader writes the separator exactly when the first-member flag is false and clears the flag (shared with C15).")
 EXPLANATION += ROUND2_EXPLANATION
 NOT_DECIDED = ('that std::regex implements the parsed normal form; the hand-written validators of the non-regex configuration; '
                'parse/serialise round trip over all strings; Get returning the most recent value over arbitrary histories.')
